@@ -1027,6 +1027,48 @@ pub fn dispatch(kind: &str, a: &[&str]) -> Option<String> {
                 format!("{} {}", show_stats(&st), if r.is_ok() { "ok" } else { "err" })
             }
         }
+        // scalar level (per-function correspondence with Serde.text_scalar / Serde.bin_scalar)
+        ("de.sc.text", [shape, h]) => {
+            let sh = parse_shape(&format!("struct(78:{})", shape));
+            let mut data = b"x=".to_vec();
+            data.extend_from_slice(&unhex(h));
+            let mut st = None;
+            show_result(with_shape(&sh, || run_text::<DynValue>("slice", Enc::W1252, &data, &mut st)))
+        }
+        ("de.sc.bin", [shape, tok, arg]) => {
+            let sh = parse_shape(&format!("struct(78:{})", shape));
+            let mut data = vec![0x17, 0x00, 0x01, 0x00, b'x', 0x01, 0x00];
+            match *tok {
+                "I32" => {
+                    data.extend_from_slice(&[0x0c, 0x00]);
+                    data.extend_from_slice(&arg.parse::<i32>().ok()?.to_le_bytes());
+                }
+                "U32" => {
+                    data.extend_from_slice(&[0x14, 0x00]);
+                    data.extend_from_slice(&arg.parse::<u32>().ok()?.to_le_bytes());
+                }
+                "I64" => {
+                    data.extend_from_slice(&[0x17, 0x03]);
+                    data.extend_from_slice(&arg.parse::<i64>().ok()?.to_le_bytes());
+                }
+                "U64" => {
+                    data.extend_from_slice(&[0x9c, 0x02]);
+                    data.extend_from_slice(&arg.parse::<u64>().ok()?.to_le_bytes());
+                }
+                "BOOL" => {
+                    data.extend_from_slice(&[0x0e, 0x00, (*arg == "1") as u8]);
+                }
+                _ => {
+                    let b = unhex(arg);
+                    data.extend_from_slice(&[0x0f, 0x00]);
+                    data.extend_from_slice(&(b.len() as u16).to_le_bytes());
+                    data.extend_from_slice(&b);
+                }
+            }
+            let mut st = None;
+            let res = Res::Map(HashMap::new());
+            show_result(with_shape(&sh, || run_bin::<DynValue>("slice", FailedResolveStrategy::Error, &res, Fl::Eu4, &data, &mut st)))
+        }
         ("de.resolver", [res, ids]) => {
             let res = match parse_resolver(res) {
                 Ok(r) => r,
